@@ -152,6 +152,33 @@ def check(ctx):
     n = core.reuse(ctx, c03, ["C03.a", "C03.b"], "C04.c")
     ctx.floor("C04.c", n, 20, "shared C03.a/C03.b obligations")
 
+    # ---- C04.g nothing else runs between the start of the event window and the reacting system's body ----
+    # (setup.run sets the reacting flags; any call that hands out &mut World before callback.run - a poll, a flush, a GC
+    #  that triggers reactions - would let unrelated systems read this event)
+    try:
+        R = A.runner(prog)
+        ctx.touch(R)
+        runs_ = lib.call_blocks(R, lib.ends(A.TABLE["callback_run"]))
+        setups = [b for b, t, fr in R.calls_named(lambda n: lib.tail(n, 2).endswith("Setup::run")) if lib.originates_from_arg(R, R.blocks[b]["term"]["args"][0], 3)
+                  and any(R.dominates(b, r) for r in runs_)]
+        bad = []
+        for s in setups:
+            after = R.reach_from(lib.call_target(R, s))
+            for b, t, fr in R.iter_calls():
+                if b in runs_ or b not in after or not any(r in R.reach_from(b) for r in runs_) or any(R.dominates(r, b) for r in runs_):
+                    continue
+                for a in t["args"]:
+                    pl = op_place(a)
+                    if pl is not None and not pl["p"] and R.local_ty(pl["l"]).startswith("&mut bevy_ecs::world::World"):
+                        nm = lib.tail(mir.fn_name(fr), 2) if fr else "<indirect>"
+                        if nm not in ("World::resource_mut", "World::resource", "World::get_resource_mut"):
+                            bad.append((R.loc(b), nm))
+        ctx.check(bool(setups) and not bad, "C04.g", "runner:nothing-runs-between-setup-and-callback", R.loc(setups[0]) if setups else "%s:%d" % (R.file, R.line),
+                  "no call receives &mut World between setup.run and callback.run",
+                  "between setup.run (event flags set) and callback.run the runner calls %s with &mut World: whatever that runs can read this event" % bad)
+    except mir.AnchorLost as e:
+        ctx.fail("C04.g", "anchor-lost:runner", "", str(e))
+
     # ---- C04.f a run postponed by recursion is handed its own event's metadata (shared with C03.e / C12.a) ----
     nf = core.adopt(ctx, c03, lambda o: o["rule"] == "C03.e", "C04.f")
     ctx.floor("C04.f", nf, 12, "shared claim-order obligations (C03.e)")
